@@ -9,10 +9,17 @@ Model/Endpoint.v is compared after EVERY event), with cancel-heavy scenarios and
   * trace clauses judged directly on what the real endpoint did (observed, no model involved): a
     request whose handler had not started when an effective cancel / shutdown found it in the table
     never logs a start afterwards and is answered -32800; a suspended propagating coroutine logs
-    `cancel`, never `end`, and is answered -32800; a running thread handler is answered naturally."""
+    `cancel`, never `end`, and is answered -32800; a running thread handler is answered naturally;
+  * NO-OP ERASURE (clause "cancelling an unknown, finished or already-cancelled id does nothing", judged
+    on the implementation): for a `$/cancelRequest` that the model proves to be the identity on the whole
+    state (cancel_noop / cancel_twice: id not in the table - unknown, answered, already cancelled, other
+    JSON type), the real endpoint is run a second time WITHOUT that frame and its whole observable trace
+    (frames with content, handler log incl. cancel entries, table keys, flags, after every event) must
+    be the same."""
 import itertools
 import json
 import os
+import random
 
 import core
 import sched
@@ -130,8 +137,9 @@ class C08(c01.C01):
             for f in sorted(os.listdir(cdir)):
                 if f.endswith(".json"):
                     cases.extend(json.load(open(os.path.join(cdir, f))))
-        scens = [self._scenario(chk.rng) for _ in range(chk.n(1500, 20000))]
+        scens = [self._scenario(chk.rng) for _ in range(chk.n(1100, 20000))]
         cases.extend(self._interleave(chk, scens))
+        cases.extend(self._dup_cases(chk, chk.n(80, 1500), chk.n(4, 8)))
         small = self._small_scenarios(chk.rng, chk.n(12, 60))
         cap = chk.n(150, 1500)
         ex, complete = [], 0
@@ -145,6 +153,95 @@ class C08(c01.C01):
                                "enumerated_interleavings": len(ex)}
         cases.extend(ex)
         return cases
+
+    # ---------------------------------------------------------------- no-op erasure
+    FLAGS = ("futs", "rtypes", "shutdown", "exit", "closed", "storm", "quiescent", "alive")
+
+    @classmethod
+    def _unchanged(cls, obs, k):
+        """Event k changed nothing that is observed."""
+        o = obs[k]
+        if o["out"] or o["hlog"] or o["errs"]:
+            return False
+        if k == 0:
+            return (not o["futs"] and not o["rtypes"] and not o["shutdown"] and o["exit"] is None
+                    and not o["closed"] and not o["storm"])
+        return all(core.canon(o.get(f)) == core.canon(obs[k - 1].get(f)) for f in cls.FLAGS)
+
+    @staticmethod
+    def _is_cancel(e):
+        return e[0] == "recv" and e[1]["t"] == "notif" and e[1].get("m", [None])[0] == "cancel"
+
+    def _dup_cases(self, chk, count, per_base):
+        """Systematic pairs for the erasure oracle: a request, a cancel that names it, and a SECOND cancel
+        (same id / same digits other JSON type / unknown id) at every later position of the schedule.
+        Handlers: swallowing and propagating coroutines with 2-3 suspension points (a second injection
+        would be visible), thread queued / running, requests that have already been answered."""
+        rng = chk.rng
+        scens = []
+        for _ in range(count):
+            cfg = {"writer": rng.choice(["blocking", "blocking", "awaitable"]), "hook": "quiet", "wfail": None}
+            kind = rng.choice(["swallow", "swallow", "swallow", "prop", "thread", "done"])
+            o = rng.choice([["ret", 5], ["ret", 7], ["raise"]])
+            if kind == "thread":
+                b = B("thread", o)
+            elif kind == "done":
+                b = B("async", o, n=0)
+            else:
+                b = B("async", o, n=rng.choice([2, 3, 3]), r="swallow" if kind == "swallow" else "prop")
+            i, other = rng.sample(IDS, 2)
+            msgs = [["recv", {"t": "req", "id": i, "ver": True, "ps": "ok", "m": ["user", b], "np": False}]]
+            if rng.random() < 0.4:
+                msgs.append(["recv", {"t": "req", "id": other, "ver": True, "ps": "ok", "np": False,
+                                      "m": ["user", B("async", ["ret", 1], n=2, r="swallow")]}])
+            msgs.append(["recv", {"t": "notif", "tag": 100, "ver": True, "ps": "ok", "m": ["cancel", i]}])
+            scens.append((cfg, msgs))
+        out = []
+        for base in self._interleave(chk, scens, maxlen=40):
+            evs = base["evs"]
+            first = next((k for k, e in enumerate(evs) if self._is_cancel(e)), None)
+            if first is None:
+                continue
+            tgt = evs[first][1]["m"][1]
+            positions = list(range(first + 1, len(evs) + 1))
+            rng.shuffle(positions)
+            for p in sorted(positions[:per_base]):
+                x = rng.random()
+                j = tgt if x < 0.7 else twin(tgt) if x < 0.85 else "zz"
+                dup = ["recv", {"t": "notif", "tag": 200 + p, "ver": True, "ps": "ok", "m": ["cancel", j]}]
+                out.append({"cfg": base["cfg"], "evs": evs[:p] + [dup] + evs[p:]})
+        return out
+
+    def run_impl(self, chk, cases):
+        base = super().run_impl(chk, cases)
+        # which cancels are the identity by the model
+        outs = core.run_driver(self.id, [sched.encode_case(c) for c in cases])
+        derived, where = [], []
+        for ci, (c, toks) in enumerate(zip(cases, outs)):
+            obs, _ = sched.parse_run(toks, len(c["evs"]))
+            ks = [k for k, e in enumerate(c["evs"]) if self._is_cancel(e) and self._unchanged(obs, k)]
+            random.Random(len(c["evs"]) * 7919 + len(ks)).shuffle(ks)
+            for k in ks[:2]:
+                derived.append({"cfg": c["cfg"], "evs": c["evs"][:k] + c["evs"][k + 1:]})
+                where.append((ci, k))
+        dres = super().run_impl(chk, derived) if derived else []
+        for (ci, k), d in zip(where, dres):
+            a = base[ci]
+            if not isinstance(a, dict) or "obs" not in a:
+                continue
+            ok = (isinstance(d, dict) and "obs" in d and "anomalies" not in d and "anomalies" not in a
+                  and core.canon(a["obs"][:k]) == core.canon(d["obs"][:k])
+                  and core.canon(a["obs"][k + 1:]) == core.canon(d["obs"][k:])
+                  and self._unchanged(a["obs"], k))
+            a.setdefault("erasure", []).append([k, bool(ok)])
+        self.extra_coverage = dict(getattr(self, "extra_coverage", {}) or {},
+                                   noop_cancels_erased_and_rerun=len(derived))
+        return base
+
+    def same(self, case, impl, M):
+        if not isinstance(impl, dict) or "anomalies" in impl:
+            return False
+        return core.canon(impl.get("obs")) == core.canon(M["obs"])
 
     # ---------------------------------------------------------------- model / reference
     def model_output(self, case, toks):
@@ -171,6 +268,8 @@ class C08(c01.C01):
     def satisfies(self, case, impl, S):
         if not super().satisfies(case, impl, S):
             return False
+        if any(not ok for _, ok in impl.get("erasure", [])):
+            return False                                # a cancel that must do nothing did something
         obs = impl["obs"]
         # (v) content of every reply
         allowed = {}
@@ -236,6 +335,22 @@ class C08(c01.C01):
                     if any(pl != nat for _, pl in rs):
                         return False
         return True
+
+    def shrink(self, case):
+        # keep a statement-level failure a statement-level failure: core's shrinker also accepts a smaller
+        # case that merely breaks the correspondence, which would turn the replay of a violation into a tie
+        try:
+            keep = core.evaluate(self, None, [case])[0]["verdict"] == "violation"
+        except Exception:
+            keep = False
+        for cand in super().shrink(case):
+            if keep:
+                try:
+                    if core.evaluate(self, None, [cand])[0]["verdict"] != "violation":
+                        continue
+                except Exception:
+                    continue
+            yield cand
 
     def nontrivial(self, case):
         seen = {}
